@@ -57,6 +57,14 @@ Definition bphp_ir (m n : Z) : list ir :=
   ++ flat_map (fun y => map (fun x => IClause (forbid K (fst x) y ++ forbid K (snd x) y)) (pairs (upto m)))
               (zrange 0 n).
 
+(* the DOCUMENTED behaviour on the whole documented domain (pigeons, holes >= 0), see finding D30:
+   no pigeon -> the empty formula; pigeons but no hole -> the empty clause.  Used by the
+   correspondence only to accept a repaired cnfgen without raising an alarm. *)
+Definition bphp_spec_valid (m n : Z) : bool := (0 <=? m) && (0 <=? n).
+Definition bphp_spec_numvar (m n : Z) : Z := if (m =? 0) || (n =? 0) then 0 else bphp_numvar m n.
+Definition bphp_spec_ir (m n : Z) : list ir :=
+  if m =? 0 then [] else if n =? 0 then [IClause []] else bphp_ir m n.
+
 (* ---------- RelativizedPigeonholePrinciple ---------- *)
 Definition rphp_valid (m r n : Z) : bool := (0 <=? m) && (0 <=? r) && (0 <=? n).
 Definition rphp_numvar (m r n : Z) : Z := m * r + r * n + r.
